@@ -142,3 +142,29 @@ def weighted (ws : List α) (ps : List (ModelParameter α)) : Outcome Unit (Mode
 
 end
 end Jb
+
+namespace Jb
+
+/-- Which weight vector a synthesized quantity uses (`Models::duration/stream/gv`). -/
+inductive Quantity where
+  | dur
+  | par (i : Nat)
+  | gv (i : Nat)
+  deriving Repr, DecidableEq
+
+def IW.select {α : Type} (iw : IW α) : Quantity → List α
+  | .dur => iw.duration
+  | .par i => iw.parameter.getD i []
+  | .gv i => iw.gv.getD i []
+
+def IWOp.target {α : Type} : IWOp α → Quantity
+  | .dur _ => .dur
+  | .par i _ => .par i
+  | .gv i _ => .gv i
+
+/-- every weight vector has one entry per voice, and there is one parameter and one GV vector per stream -/
+def IW.WF {α : Type} (iw : IW α) (ns : Nat) : Prop :=
+  iw.duration.length = iw.nvoices ∧ iw.parameter.length = ns ∧ iw.gv.length = ns ∧
+  (∀ l ∈ iw.parameter, l.length = iw.nvoices) ∧ (∀ l ∈ iw.gv, l.length = iw.nvoices)
+
+end Jb
